@@ -1,5 +1,10 @@
 import DiffxVerif.Properties.C20
+import DiffxVerif.Properties.C20Writer
 #print axioms Diffx.C20.C20_lossless
 #print axioms Diffx.C20.C20_contiguous
 #print axioms Diffx.C20.C20_progress
 #print axioms Diffx.C20.C20_headers
+#print axioms Diffx.C20.C20_rendered
+#print axioms Diffx.C20.C20_writer_file
+#print axioms Diffx.C20.C20_rendered_text
+#print axioms Diffx.C20.C20_writer_file_instance
